@@ -7,5 +7,6 @@ CONSTANTS
   Hosts = {"h1", "h2", "h3"}
   FirstHost = "h1"
   TimerStoppedOnClose = TRUE
+  EventsBlockRefresh = FALSE
 INVARIANTS ExportHazard
 CHECK_DEADLOCK FALSE
